@@ -283,6 +283,15 @@ func prim(kind string, data, sig []byte) bool {
 	return ecdsa.Verify(&ecKey.PublicKey, d[:], es.R, es.S)
 }
 
+// the digest argument of vsct / vsth / vsig lines: standard-library SHA-256 of the harness's own RFC input
+func digestArg(data []byte, defined bool) string {
+	if !defined {
+		return "-"
+	}
+	d := sha256.Sum256(data)
+	return hex.EncodeToString(d[:])
+}
+
 // ---- Exec ----
 
 func resB(b []byte, err error) string {
@@ -605,8 +614,8 @@ func exec(line string) zv.Out {
 		want, defined := rfcSCTInput(ts, et, x509c, ikh, tbs, ext)
 		defined = defined && ver == 0 && lt == 0
 		p := defined && prim(kind, want, sig)
-		if (f[3] == "1") != p {
-			panic("case line carries a stale primitive verdict")
+		if (f[3] == "1") != p || f[15] != digestArg(want, defined) {
+			panic("case line carries a stale primitive verdict or digest")
 		}
 		expect := p && hash == 4 && ((alg == 1 && kind == "rsa") || (alg == 3 && kind == "ec"))
 		if expect != (err == nil) {
@@ -628,8 +637,8 @@ func exec(line string) zv.Out {
 			out = "err"
 		}
 		p := ver == 0 && prim(kind, rfcSTHInput(size, ts, root), sig)
-		if (f[3] == "1") != p {
-			panic("case line carries a stale primitive verdict")
+		if (f[3] == "1") != p || f[11] != digestArg(rfcSTHInput(size, ts, root), true) {
+			panic("case line carries a stale primitive verdict or digest")
 		}
 		expect := p && hash == 4 && ((alg == 1 && kind == "rsa") || (alg == 3 && kind == "ec"))
 		if expect != (err == nil) {
@@ -637,7 +646,7 @@ func exec(line string) zv.Out {
 		}
 		tags = append(tags, "key="+kind, "verify-"+out, fmt.Sprintf("prim=%v", p))
 	default:
-		panic("unknown c16 op " + op)
+		out, viol, tags = execMore(f, tags)
 	}
 	return zv.Out{Go: out, Viol: strings.Join(viol, "; "), Tags: tags}
 }
